@@ -335,8 +335,9 @@ Section Typed.
       tv (fty f) (hint_elem (fhint f)) value = true \/
       (exists l p', value = PList l /\ fhint f = HList p' /\ forallb (tv (fty f) p') l = true).
     Proof.
-      intros Hw Hm Hp Hfit Hint Hd. set (pe := hint_elem (fhint f)) in *.
+      intros Hw Hm Hp Hfit Hint Hd.
       unfold decode_value, WIRE_VARINT, WIRE_FIXED_32, WIRE_FIXED_64, WIRE_LEN_DELIM in Hd.
+      remember (hint_elem (fhint f)) as pe eqn:Epe in *.
       destruct (fits_cases _ _ Hfit) as [[E T]|[[E T]|[[E T]|[E T]]]]; rewrite E in Hd; cbn [Z.eqb Pos.eqb andb orb] in Hd.
       - injection Hd as <-. left. apply postprocess_varint_typed; auto.
       - left. eapply unpack_value_typed; eassumption.
@@ -347,7 +348,7 @@ Section Typed.
           rewrite Hl in T. cbn [orb andb] in T.
           destruct (fhint f) as [|?|p'|] eqn:Hh; try discriminate T.
           destruct (unpack_packed _ _ _) as [l|] eqn:Eu; cbn [bind] in Hd; [|discriminate]. injection Hd as <-.
-          right. exists l, p'. split; [reflexivity|]. split; [reflexivity|].
+          right. exists l, p'. split; [reflexivity|]. split; [reflexivity|]. cbn [hint_elem] in Epe. subst pe.
           eapply unpack_packed_typed; eauto.
         + cbn [andb orb] in T. rewrite orb_false_r in T. rewrite Hm in Hd. unfold post_len_r in Hd. rewrite Hw in Hd.
           left. destruct (fty f) eqn:Et; try discriminate T; try discriminate Hm;
@@ -371,7 +372,225 @@ Section Typed.
                destruct (snd (getattr sc m 0)) as [[]|]; try discriminate Hd.
                destruct (snd (getattr sc m 1)) as [[]|]; try discriminate Hd.
                unfold us_of_dur in Hd. destruct (td_ok _) eqn:Er; cbn [bind] in Hd; [|discriminate]. injection Hd as <-.
-               cbn [typed_val]. unfold timedelta_ok. destruct strict; [reflexivity | exact Er].
+               cbn [typed_val]. unfold timedelta_ok. rewrite Er. destruct strict; reflexivity.
+    Qed.
+
+    Lemma decode_value_typed f ng p value :
+      wf_field sc ng f = true ->
+      wire_type_fits f (pwt p) = true -> (pwt p = 0 -> 0 <= pint p < 2 ^ 70) ->
+      decode_value sc pn f p = Ok value -> value_fits f value = true.
+    Proof.
+      intros Hw Hfit Hint Hd. unfold value_fits. unfold wf_field in Hw.
+      destruct (fhint f) as [p'|p'|p'|pk pv'] eqn:Hh.
+      - (* plain *)
+        split_and.
+        assert (fwraps f = None) by (destruct (fwraps f); [discriminate | reflexivity]).
+        assert (ptype_eqb (fty f) TMap = false) by (destruct (ptype_eqb (fty f) TMap); [discriminate | reflexivity]).
+        destruct (decode_elem_typed f p value) as [Hv|(l & p'' & _ & Hl & _)]; auto; try (rewrite Hh; assumption).
+        + rewrite Hh in Hv. exact Hv.
+        + congruence.
+      - (* optional: proto3 optional or wrapper *)
+        destruct (fwraps f) as [w|] eqn:Ew.
+        + split_and.
+          destruct (wrapper_cls w) as [wc|] eqn:Ewc; [|discriminate].
+          destruct (wrapper_value_type w) as [vt|] eqn:Evt; [|discriminate].
+          assert (Et : fty f = TMessage) by (apply ptype_eqb_eq; assumption).
+          unfold opt_elem_type. rewrite Ew, Evt.
+          destruct (fits_cases _ _ Hfit) as [[E T]|[[E T]|[[E T]|[E T]]]]; rewrite Et in T; try discriminate T.
+          unfold decode_value, WIRE_VARINT, WIRE_FIXED_32, WIRE_FIXED_64, WIRE_LEN_DELIM in Hd.
+          rewrite E, Et in Hd. cbn [Z.eqb Pos.eqb andb orb tmem existsb ptype_eqb ptype_tag PACKED_TYPES] in Hd.
+          unfold post_len_r in Hd. rewrite Ew, Hh in Hd.
+          cbn [ptype_eqb ptype_tag Z.eqb Pos.eqb hint_elem] in Hd.
+          assert (Hp' : p' = plain_pyty vt) by (eapply wrapper_pyty; eassumption).
+          assert (Hd' : (do m <- pn wc (pbytes p); snd (getattr sc m 0)) = Ok value).
+          { rewrite Ewc in Hd. destruct p'; try exact Hd;
+              destruct w; cbn in Evt; try discriminate Evt; injection Evt as <-; cbn in Hp'; discriminate Hp'. }
+          clear Hd. destruct (pn wc (pbytes p)) as [m|] eqn:Em; cbn [bind] in Hd'; [|discriminate].
+          destruct (Hpn _ _ _ Em) as [Hc Ht].
+          destruct (getattr sc m 0) as [o' r] eqn:Eg. cbn [snd] in Hd'. subst r.
+          destruct (getattr_typed _ _ _ _ Ht Eg) as (_ & _ & f0 & Hn & Hta & Hne).
+          rewrite Hc, (wrapper_class_fields _ _ _ Ewc Evt) in Hn. cbn in Hn. injection Hn as <-.
+          unfold typed_attr in Hta. cbn [plain_field fhint fty] in Hta. subst p'.
+          destruct value; try congruence; try exact Hta; discriminate Hta.
+        + split_and.
+          assert (ptype_eqb (fty f) TMap = false) by (destruct (ptype_eqb (fty f) TMap); [discriminate | reflexivity]).
+          unfold opt_elem_type. rewrite Ew.
+          destruct (decode_elem_typed f p value) as [Hv|(l & p'' & _ & Hl & _)]; auto; try (rewrite Hh; assumption).
+          * rewrite Hh in Hv. exact Hv.
+          * congruence.
+      - (* repeated *)
+        split_and.
+        assert (fwraps f = None) by (destruct (fwraps f); [discriminate | reflexivity]).
+        assert (ptype_eqb (fty f) TMap = false) by (destruct (ptype_eqb (fty f) TMap); [discriminate | reflexivity]).
+        destruct (decode_elem_typed f p value) as [Hv|(l & p'' & -> & Hl & Hall)]; auto; try (rewrite Hh; assumption).
+        + rewrite Hh in Hv. cbn [hint_elem] in Hv. rewrite Hv. reflexivity.
+        + rewrite Hh in Hl. injection Hl as <-. rewrite Hall. apply orb_true_r.
+      - (* map *)
+        split_and.
+        assert (Et : fty f = TMap) by (apply ptype_eqb_eq; assumption).
+        destruct (fits_cases _ _ Hfit) as [[E T]|[[E T]|[[E T]|[E T]]]]; rewrite Et in T; try discriminate T.
+        unfold decode_value, WIRE_VARINT, WIRE_FIXED_32, WIRE_FIXED_64, WIRE_LEN_DELIM in Hd.
+        rewrite E, Et in Hd. cbn [Z.eqb Pos.eqb andb orb tmem existsb ptype_eqb ptype_tag PACKED_TYPES] in Hd.
+        destruct (pn (fentry f) (pbytes p)) as [e|] eqn:Em; cbn [bind] in Hd; [|discriminate]. injection Hd as <-.
+        destruct (Hpn _ _ _ Em) as [Hc Ht]. rewrite Hc, Nat.eqb_refl, Ht. reflexivity.
+    Qed.
+
+    Lemma fetch_current_typed o i f o1 current :
+      tobj o = true -> nth_error (cfields (get_class sc (ocls o))) i = Some f ->
+      fetch_current sc o i f = (o1, current) ->
+      tobj o1 = true /\ ocls o1 = ocls o /\ ta current f = true /\ current <> PPlaceholder.
+    Proof.
+      intros Ht Hn H. unfold fetch_current in H.
+      destruct (getattr sc o i) as [o' [v|e]] eqn:Eg.
+      - injection H as <- <-. destruct (getattr_typed _ _ _ _ Ht Eg) as (T1 & T2 & f0 & Hn0 & Hta & Hne).
+        rewrite Hn in Hn0. injection Hn0 as <-. tauto.
+      - injection H as <- <-.
+        pose proof (default_typed f _ (wf_field_of sc _ i f Hwf Hn)) as Hd.
+        destruct (setattr_typed o i f _ Ht Hn Hd) as [T1 T2].
+        split; [exact T1|]. split; [exact T2|]. split; [exact Hd|].
+        unfold default_of. destruct (fhint f) as [[]| | |]; discriminate.
+    Qed.
+
+    Lemma forallb_app' {A} (P : A -> bool) l1 l2 : forallb P l1 = true -> forallb P l2 = true -> forallb P (l1 ++ l2) = true.
+    Proof. intros H1 H2. rewrite forallb_app, H1, H2. reflexivity. Qed.
+
+    Lemma store_value_typed o i f value o' :
+      tobj o = true -> nth_error (cfields (get_class sc (ocls o))) i = Some f ->
+      value_fits f value = true -> store_value sc o i f value = Ok o' ->
+      tobj o' = true /\ ocls o' = ocls o.
+    Proof.
+      intros Ht Hn Hv H. unfold store_value in H.
+      destruct (fetch_current sc o i f) as [o1 current] eqn:Ef.
+      destruct (fetch_current_typed _ _ _ _ _ Ht Hn Ef) as (T1 & T2 & Hc & Hne).
+      pose proof (wf_field_of sc _ i f Hwf Hn) as Hw.
+      pose proof (entries_agree_of sc _ i f Hea Hn) as Hag.
+      rewrite <- T2 in Hn.
+      unfold value_fits in Hv. unfold wf_field in Hw. unfold entry_hints_agree in Hag.
+      destruct (ptype_eqb (fty f) TMap) eqn:Em.
+      - (* map entry *)
+        destruct (fhint f) as [p'|p'|p'|pk pv'] eqn:Hh; split_and;
+          try (match goal with Hx : negb true = true |- _ => discriminate Hx end).
+        { destruct (fwraps f) as [w|]; split_and.
+          - assert (fty f = TMessage) by (apply ptype_eqb_eq; assumption).
+            apply ptype_eqb_eq in Em. congruence.
+          - match goal with Hx : negb true = true |- _ => discriminate Hx end. }
+        destruct value as [| | | | | | | | | | |e]; try discriminate Hv. apply andb_true_iff in Hv as [Hce Hte].
+        apply Nat.eqb_eq in Hce.
+        destruct (fmap f) as [[kt vt]|] eqn:Hm; [|discriminate].
+        unfold typed_attr in Hc. rewrite Hh, Hm in Hc.
+        destruct current as [| | | | | | | | | |d|]; try discriminate Hc; try congruence.
+        unfold entry_class_ok in *. rewrite Hm, Hh in *.
+        destruct (cfields (get_class sc (fentry f))) as [|fk [|fv [|]]] eqn:Ecf; try discriminate.
+        destruct (fhint fk) as [k'| | |] eqn:Hk; try discriminate.
+        destruct (fhint fv) as [v'| | |] eqn:Hv'; try discriminate.
+        split_and.
+        repeat match goal with Hx : pyty_eqb _ _ = true |- _ => apply pyty_eqb_eq in Hx end. subst k' v'.
+        repeat match goal with Hx : ptype_eqb _ _ = true |- _ => apply ptype_eqb_eq in Hx end.
+        destruct (getattr sc e 0) as [e0 [k|]] eqn:Eg0; [|discriminate].
+        destruct (getattr sc e 1) as [e1 [v|]] eqn:Eg1; [|discriminate].
+        injection H as <-.
+        destruct (getattr_typed _ _ _ _ Hte Eg0) as (_ & _ & f0 & Hn0 & Hta0 & Hne0).
+        destruct (getattr_typed _ _ _ _ Hte Eg1) as (_ & _ & f1 & Hn1 & Hta1 & Hne1).
+        rewrite Hce, Ecf in Hn0, Hn1. cbn in Hn0, Hn1. injection Hn0 as <-. injection Hn1 as <-.
+        unfold typed_attr in Hta0, Hta1. rewrite Hk in Hta0. rewrite Hv' in Hta1.
+        assert (Hk0 : tv kt pk k = true).
+        { match goal with Hx : fty fk = _ |- _ => rewrite Hx in Hta0 end.
+          destruct k; try exact Hta0; [exfalso; apply Hne0; reflexivity | discriminate Hta0]. }
+        assert (Hv0 : tv vt pv' v = true).
+        { match goal with Hx : fty fv = _ |- _ => rewrite Hx in Hta1 end.
+          destruct v; try exact Hta1; [exfalso; apply Hne1; reflexivity | discriminate Hta1]. }
+        rewrite <- T2. apply (set_raw_typed o1 i f); [exact T1 | exact Hn|].
+        eapply ta_dict; [exact Hh | exact Hm|].
+        apply (dict_set_typed (tv kt pk) (tv vt pv')); assumption.
+      - destruct current as [| | | | | | | | |l| |] eqn:Ec.
+        10:{ (* list: append *)
+          injection H as <-. destruct (ta_list_inv _ _ Hc) as (p' & Hh & Hl).
+          rewrite Hh in Hv. rewrite <- T2. apply (set_raw_typed o1 i f); [exact T1 | exact Hn|].
+          apply (ta_list f p'); [exact Hh|].
+          destruct value; try (apply forallb_app'; [exact Hl|]; cbn [forallb];
+                               rewrite orb_false_r in Hv; rewrite Hv; reflexivity).
+          cbn [typed_val] in Hv. destruct p'; cbn [orb] in Hv; apply forallb_app'; assumption. }
+        all: injection H as <-; rewrite <- T2; apply (setattr_typed o1 i f); [exact T1 | exact Hn|];
+          (destruct (fhint f) as [p'|p'|p'|pk pv'] eqn:Hh;
+           [ eapply ta_plain; eassumption
+           | eapply ta_optional; eassumption
+           | unfold typed_attr in Hc; try rewrite Hh in Hc;
+             first [discriminate Hc | exfalso; apply Hne; reflexivity]
+           | split_and; match goal with Hx : ptype_eqb (fty f) TMap = true |- _ => rewrite Hx in Em; discriminate Em end ]).
+    Qed.
+
+    Lemma add_unknown_typed o bs : tobj (add_unknown o bs) = tobj o /\ ocls (add_unknown o bs) = ocls o.
+    Proof. destruct o; split; reflexivity. Qed.
+
+    Lemma apply_field_typed o p o' :
+      tobj o = true -> (pwt p = 0 -> 0 <= pint p < 2 ^ 70) ->
+      apply_field sc pn (get_class sc (ocls o)) o p = Ok o' ->
+      tobj o' = true /\ ocls o' = ocls o.
+    Proof.
+      intros Ht Hint H. unfold apply_field in H.
+      destruct (field_by_number (get_class sc (ocls o)) (pnum p)) as [[i f]|] eqn:Ef.
+      2:{ injection H as <-. destruct (add_unknown_typed o (praw p)) as [-> ->]. tauto. }
+      destruct (wire_type_fits f (pwt p)) eqn:Efit; cbn [negb] in H.
+      2:{ injection H as <-. destruct (add_unknown_typed o (praw p)) as [-> ->]. tauto. }
+      apply field_by_number_nth in Ef as [Hn _].
+      destruct (decode_value sc pn f p) as [value|] eqn:Ed; cbn [bind] in H; [|discriminate].
+      eapply store_value_typed; try eassumption.
+      eapply decode_value_typed; try eassumption. eapply wf_field_of; eassumption.
+    Qed.
+
+    Lemma loop_r_typed fuel' size c : forall n o s read o' s',
+      tobj o = true -> ocls o = c ->
+      loop_r sc pn (load_field fuel') size (get_class sc c) n o s read = Ok (o', s') ->
+      tobj o' = true /\ ocls o' = c.
+    Proof.
+      induction n as [|n IH]; intros o s read o' s' Ht Hc H; [discriminate|]. cbn [loop_r] in H.
+      destruct s as [|b s0].
+      { destruct size as [sz|]; [destruct (read <? sz); [discriminate|]|]; injection H as <- <-; tauto. }
+      destruct (load_varint (b :: s0)) as [[[nw r] s1]|]; cbn [bind] in H; [|discriminate].
+      destruct (load_field fuel' s1 nw r) as [[p s2]|] eqn:Ef; cbn [bind] in H; [|discriminate].
+      destruct (account size read p) as [read'|]; cbn [bind] in H; [|discriminate].
+      destruct (apply_field sc pn (get_class sc c) o p) as [o1|] eqn:Ea; cbn [bind] in H; [|discriminate].
+      rewrite <- Hc in Ea. apply apply_field_typed in Ea; [|exact Ht|].
+      - destruct Ea as [T1 T2]. destruct (finished size read').
+        + injection H as <- <-. split; [exact T1 | congruence].
+        + eapply IH; [exact T1 | congruence | exact H].
+      - apply load_field_sound in Ef. destruct Ef as (pl & _ & _ & _ & _ & Hw & _ & _ & Hv & _).
+        intros E0. rewrite Hw in E0. eapply VarintRep_range, Hv, E0.
     Qed.
   End Decode.
+
+  Lemma mark_on_wire_typed o : tobj (mark_on_wire o) = tobj o /\ ocls (mark_on_wire o) = ocls o.
+  Proof. destruct o; split; reflexivity. Qed.
+
+  Theorem load_r_typed fuel : forall o s size o' s',
+    tobj o = true -> load_r fuel sc o s size = Ok (o', s') -> tobj o' = true /\ ocls o' = ocls o.
+  Proof.
+    induction fuel as [|fuel IH]; intros o s size o' s' Ht H; [discriminate|]. cbn [load_r] in H.
+    destruct (read_size size s) as [[size' s1]|]; cbn [bind] in H; [|discriminate].
+    destruct (mark_on_wire_typed o) as [M1 M2].
+    assert (G : forall o' s', loop_r sc (fun c' bs => do (o', _) <- load_r fuel sc (new sc c') bs None; Ok o')
+                     (load_field fuel) size' (get_class sc (ocls (mark_on_wire o))) (S (length s1))
+                     (mark_on_wire o) s1 0 = Ok (o', s') -> tobj o' = true /\ ocls o' = ocls o).
+    { intros o2 s2 HL. rewrite <- M2. eapply loop_r_typed; [| |reflexivity|exact HL].
+      - intros c' bs m Hm.
+        destruct (load_r fuel sc (new sc c') bs None) as [[m' rest]|] eqn:El; cbn [bind] in Hm; [|discriminate].
+        injection Hm as <-. destruct (IH _ _ _ _ _ (new_typed c') El) as [T1 T2]. split; [exact T2 | exact T1].
+      - rewrite M1. exact Ht. }
+    destruct size' as [[| |]|]; try (apply G; exact H).
+    injection H as <- <-. rewrite M1, M2. tauto.
+  Qed.
+
+  Theorem parse_typed c bs m : parse sc c bs = Ok m -> tobj m = true /\ ocls m = c.
+  Proof.
+    rewrite parse_eq. unfold parse_r. intros H.
+    destruct (load_r _ sc (new sc c) bs None) as [[m' rest]|] eqn:El; cbn [bind] in H; [|discriminate].
+    injection H as <-. apply (load_r_typed _ _ _ _ _ _ (new_typed c) El).
+  Qed.
+
+  Theorem parse_into_typed o bs m : tobj o = true -> parse_into sc o bs = Ok m -> tobj m = true /\ ocls m = ocls o.
+  Proof.
+    rewrite parse_into_eq. intros Ht H.
+    destruct (load_r _ sc o bs None) as [[m' rest]|] eqn:El; cbn [bind] in H; [|discriminate].
+    injection H as <-. apply (load_r_typed _ _ _ _ _ _ Ht El).
+  Qed.
 End Typed.
